@@ -28,8 +28,10 @@ FuncNode::FuncNode(const Func &func, const std::string &help) :
 
 void FuncNode::execute(const Session &s, const Args &a) const
 {
-    if (func_)
-        func_(s, a);
+    //! run a copy: the callback may delete this very node (deleteNode() from inside the command)
+    Func func = func_;
+    if (func)
+        func(s, a);
 }
 
 }
